@@ -273,3 +273,28 @@ Definition earliest_tick (delays freqs restarts : list Z) (k : Z) : Z :=
 Definition runner_times_ok (delays freqs restarts : list Z) (starts : list (Z * Z)) : bool :=
   forallb (fun kt => (0 <=? fst kt) && (fst kt <? Z.of_nat (length freqs)) &&
                      (earliest_tick delays freqs restarts (fst kt) <=? snd kt)) starts.
+
+(* The same consequence, tracked exactly along the observed run. evs: (code, k, t), oldest first:
+   code 7 = the goroutine is about to go back to the first schedule (startFirst), 8 = it is about
+   to move to the next schedule (startNext), 1 = the function starts with schedule k's frequency;
+   t is relative to an instant just before New(). State: the active schedule (-1 before the
+   first) and the instant it was started. A move to schedule i comes no earlier than schedule
+   i's start delay after the start of the schedule before it (a Restart re-arms that delay: the
+   count begins again at the return to the first schedule); the function starts no earlier than
+   one period after its schedule was started. *)
+Fixpoint timed_run (delays freqs : list Z) (idx tcur : Z) (evs : list (Z * Z * Z)) : bool :=
+  match evs with
+  | [] => true
+  | (code, k, t) :: r =>
+    if code =? 7 then timed_run delays freqs 0 t r
+    else if code =? 8 then
+      if idx + 1 <? Z.of_nat (length delays)
+      then (tcur + nth (Z.to_nat (idx + 1)) delays 0 <=? t) && timed_run delays freqs (idx + 1) t r
+      else timed_run delays freqs idx tcur r
+    else if code =? 1 then
+      (k =? idx) && (tcur + nth (Z.to_nat k) freqs 0 <=? t) && timed_run delays freqs idx tcur r
+    else timed_run delays freqs idx tcur r
+  end.
+
+Definition runner_timed_ok (delays freqs : list Z) (evs : list (Z * Z * Z)) : bool :=
+  timed_run delays freqs (-1) 0 evs.
